@@ -441,11 +441,14 @@ void ares_process_pending_write(ares_channel_t *channel)
   ares_channel_unlock(channel);
 }
 
-static ares_status_t read_conn_packets(ares_conn_t *conn)
+static ares_status_t read_conn_packets(ares_conn_t *conn,
+                                       ares_bool_t *conn_failed)
 {
   ares_bool_t           read_again;
   ares_conn_err_t       err;
   const ares_channel_t *channel = conn->server->channel;
+
+  *conn_failed = ARES_FALSE;
 
   do {
     size_t         count;
@@ -503,9 +506,11 @@ static ares_status_t read_conn_packets(ares_conn_t *conn)
      * a blocking socket and would cause recvfrom to hang. */
   } while (read_again);
 
+  /* The connection failed or was closed by the peer.  Whatever was read before
+   * that happened (in this call or an earlier one) is still valid, let the
+   * caller process it before the connection is torn down. */
   if (err != ARES_CONN_ERR_SUCCESS && err != ARES_CONN_ERR_WOULDBLOCK) {
-    handle_conn_error(conn, ARES_TRUE, ARES_ECONNREFUSED);
-    return ARES_ECONNREFUSED;
+    *conn_failed = ARES_TRUE;
   }
 
   return ARES_SUCCESS;
@@ -554,7 +559,8 @@ fail:
   return status;
 }
 
-static ares_status_t read_answers(ares_conn_t *conn, const ares_timeval_t *now)
+static ares_status_t read_answers(ares_conn_t *conn, const ares_timeval_t *now,
+                                  ares_bool_t conn_failed)
 {
   ares_status_t   status;
   ares_channel_t *channel = conn->server->channel;
@@ -602,14 +608,12 @@ static ares_status_t read_answers(ares_conn_t *conn, const ares_timeval_t *now)
     /* We finished reading this answer; process it */
     status = process_answer(channel, data, data_len, conn, now, &requeue);
 
-    /* The connection was closed underneath us, it is ours to release */
+    /* The connection was closed underneath us, stop using its buffer */
     if (conn->state_flags & ARES_CONN_STATE_CLOSED) {
-      ares_conn_free(conn);
       goto cleanup;
     }
 
     if (status != ARES_SUCCESS) {
-      conn->state_flags &= ~((unsigned int)ARES_CONN_STATE_READING);
       handle_conn_error(conn, ARES_TRUE, status);
       goto cleanup;
     }
@@ -618,7 +622,13 @@ static ares_status_t read_answers(ares_conn_t *conn, const ares_timeval_t *now)
     ares_buf_tag_clear(conn->in_buf);
   }
 
-  conn->state_flags &= ~((unsigned int)ARES_CONN_STATE_READING);
+  /* The read that delivered this data ended with a connection failure, now
+   * that the data has been processed handle it (before anything is requeued
+   * so the requeue doesn't pick this connection) */
+  if (conn_failed) {
+    handle_conn_error(conn, ARES_TRUE, ARES_ECONNREFUSED);
+    status = ARES_ECONNREFUSED;
+  }
 
 cleanup:
 
@@ -662,6 +672,13 @@ cleanup:
   }
   ares_array_destroy(requeue);
 
+  /* If the connection was closed while we were using it, it is ours to
+   * release */
+  conn->state_flags &= ~((unsigned int)ARES_CONN_STATE_READING);
+  if (conn->state_flags & ARES_CONN_STATE_CLOSED) {
+    ares_conn_free(conn);
+  }
+
   return status;
 }
 
@@ -671,23 +688,21 @@ static ares_status_t process_read(ares_channel_t       *channel,
 {
   ares_conn_t  *conn = ares_conn_from_fd(channel, read_fd);
   ares_status_t status;
+  ares_bool_t   conn_failed;
 
   if (conn == NULL) {
     return ARES_SUCCESS;
   }
 
-  /* TODO: There might be a potential issue here where there was a read that
-   *       read some data, then looped and read again and got a disconnect.
-   *       Right now, that would cause a resend instead of processing the data
-   *       we have.  This is fairly unlikely to occur due to only looping if
-   *       a full buffer of 65535 bytes was read. */
-  status = read_conn_packets(conn);
+  status = read_conn_packets(conn, &conn_failed);
 
   if (status != ARES_SUCCESS) {
     return status;
   }
 
-  return read_answers(conn, now);
+  /* Data that was read before the connection failed (possibly in the same
+   * call) is processed first, then the failure is handled */
+  return read_answers(conn, now, conn_failed);
 }
 
 /* If any queries have timed out, note the timeout and move them on. */
